@@ -27,9 +27,14 @@ tie, checked on every run (T-acc + T-diff on the REAL .vcd file):
   expression result (comparisons Bits/Bits and Bits/int, reductions, boolean context, and/or/not, Bits1() casts, selects,
   slices, arithmetic, concat, if-expressions) in @update and @update_ff blocks and through nets; inputs move between values that collide under
   cheap comparisons: equal hash()/mod 2^61-1/2^31-1, equal low 32/64 bits, complements, reversals, rotations,
-  zeros<->ones) are simulated with DefaultPassGroup(vcdwave=...,
-  textwave=True).  A sampling function is inserted into the two tick
-  schedules PrepareSimPass builds (sim_tick and sim_reset) at the clock edge = immediately before the first
+  zeros<->ones; struct types of total width 1 (single field / nested / list of one), 2, 64, 65 as port, wire and
+  register types) are simulated under every simulation flow that can dump waveforms: DefaultPassGroup(vcdwave=...,
+  textwave=True), SimpleSimPass with the waveform metadata set, and the open-loop method-driven simulator
+  (GenDAGPass + OpenLoopCLPass = the pipeline of AutoTickSimPass; the top gets a method port and is ticked by calling
+  it), with and without sim_reset.  (The mamba pass groups accept `waveform=` but never dump; AutoTickSimPass itself
+  raises KeyError in its second lock_in_simulation() on the clean tree for any design with a value net.)
+  A sampling function is placed in the two tick schedules the simulation pass closes over (PrepareSimPass: sim_tick and
+  sim_reset; OpenLoopCLPass: the method-free schedule of the wrapped top-level methods and sim_reset) at the clock edge = immediately before the first
   flip-flop/posedge-flip block (independent of where the dump function sits); it reads every top-level signal's live
   object and packs it with to_bits().  The .vcd file is tokenised here (header -> (scope.name, width, code); body -> `#t` tokens and
   raw value-change lines) and handed to Coq, where for every case
@@ -65,6 +70,38 @@ class Nest:
 class Wide:
   lo: Bits33
   hi: Bits40
+
+@bitstruct
+class Flag:
+  v: Bits1
+
+@bitstruct
+class FlagBox:
+  f: Flag
+
+@bitstruct
+class FlagList:
+  l: [Bits1]*1
+
+@bitstruct
+class Two:
+  a: Bits1
+  b: Bits1
+
+@bitstruct
+class TwoBox:
+  f: FlagBox
+  g: FlagList
+
+@bitstruct
+class S64:
+  a: Bits32
+  b: Bits32
+
+@bitstruct
+class S65:
+  a: Bits1
+  b: Bits64
 
 @bitstruct
 class Tagged:
@@ -297,7 +334,8 @@ class Idle( Component ):
     s.out = OutPort( T )
 '''
 
-STRUCTS = {'Pt': 8, 'Nest': 15, 'Wide': 73, 'Tagged': 67, 'Big': 128}
+STRUCTS = {'Pt': 8, 'Nest': 15, 'Wide': 73, 'Tagged': 67, 'Big': 128,
+           'Flag': 1, 'FlagBox': 1, 'FlagList': 1, 'Two': 2, 'TwoBox': 2, 'S64': 64, 'S65': 65}
 BWIDTHS = [1, 1, 2, 3, 4, 5, 7, 8, 8, 13, 16, 31, 32, 33, 61, 62, 63, 64, 64, 65, 96, 100, 127, 128, 129, 200]
 
 # moduli / truncations under which a lazy "did it change?" test (hash(), a 32/64-bit compare, an int cast) would call
@@ -487,12 +525,15 @@ def render(spec, name):
     else:
       raise ValueError(k)
   if len(L) == 2: L.append('    pass')
+  if spec.get('flow') == 'openloop':
+    # the open-loop simulator advances when a top-level method is called again
+    L += ['  @method_port', '  def poke( s ):', '    pass']
   return PRELUDE + '\n' + '\n'.join(classes) + '\n' + '\n'.join(L) + '\n', inputs
 
 # ----------------------------------------------------------------------------- random specs
 def rand_type(rng, allow_struct=True):
   if allow_struct and rng.random() < 0.3:
-    return ('s', rng.choice(['Pt', 'Pt', 'Nest', 'Wide', 'Tagged', 'Big']))
+    return ('s', rng.choice(['Pt', 'Pt', 'Nest', 'Wide', 'Tagged', 'Big', 'Flag', 'FlagBox', 'FlagList', 'Two', 'TwoBox', 'S64', 'S65']))
   return ('b', rng.choice(BWIDTHS))
 
 def rand_stage(rng, T):
@@ -601,6 +642,15 @@ DIRECTED = [
   {'chains': [{'T': ('b', 1), 'stages': [('Expr', 1, 1), ('Expr', 0, 1)], 'share': None, 'aslist': True},
               {'T': ('b', 8), 'stages': [('Expr', 5, 3), ('Reg',), ('Expr', 255, 8)], 'share': None, 'aslist': False},
               {'T': ('b', 64), 'stages': [('Expr', 7, 61)], 'share': None, 'aslist': False}], 'extras': []},
+  # struct types of total width 1 (single field, nested, list of one), 2, 64 and 65 as port, wire and register types
+  {'chains': [{'T': ('s', 'Flag'), 'stages': [('PassThru',), ('Reg',)], 'share': None, 'aslist': False},
+              {'T': ('s', 'FlagBox'), 'stages': [('Reg',), ('PassThru',)], 'share': None, 'aslist': True},
+              {'T': ('s', 'FlagList'), 'stages': [('Nested',)], 'share': None, 'aslist': False},
+              {'T': ('s', 'Two'), 'stages': [('Reg',)], 'share': None, 'aslist': False},
+              {'T': ('s', 'TwoBox'), 'stages': [('PassThru',), ('Reg',)], 'share': None, 'aslist': False},
+              {'T': ('s', 'S64'), 'stages': [('Reg',), ('PassThru',)], 'share': None, 'aslist': False},
+              {'T': ('s', 'S65'), 'stages': [('PassThru',), ('Reg',)], 'share': None, 'aslist': False}],
+   'extras': [('never', ('s', 'Flag')), ('listports', ('s', 'FlagBox'), 2), ('topifc', ('s', 'FlagList'), 1)]},
   # one input fanned into three chains: one big net across many components
   {'chains': [{'T': ('b', 8), 'stages': [('PassThru',), ('PassThru',)], 'share': None, 'aslist': False},
               {'T': ('b', 8), 'stages': [('Fan', 3), ('PassThru',)], 'share': 0, 'aslist': False},
@@ -620,10 +670,12 @@ def load_design(src, name):
   return mod, fn
 
 def insert_sampler(top, vcd_func, fn):
-  """put fn at the clock edge of every tick schedule PrepareSimPass closed over (sim_tick and the ff part of
-  sim_reset): immediately before the first flip-flop / posedge-flip block, i.e. after all combinational blocks of the
-  cycle and before any state changes.  The schedules are recognised by containing the VCD dump function; where that
-  function sits inside them is NOT used (a dump moved behind the flip must disagree with the samples)."""
+  """put fn at the clock edge of every tick schedule the simulation pass closed over: immediately before the first
+  flip-flop / posedge-flip block, i.e. after all combinational blocks of the cycle and before any state changes
+  (PrepareSimPass: sim_tick and the ff part of sim_reset; OpenLoopCLPass: the method-free schedule shared by the wrapped
+  top-level methods and the ff part of sim_reset).  The schedules are recognised by containing the VCD dump function;
+  where that function sits inside them is NOT used (a dump moved behind the flip must disagree with the samples).  The
+  block at the edge is wrapped in place, so indices into the schedule that a pass precomputed stay valid."""
   edge = list(top._sched.schedule_ff) + list(top._sched.schedule_posedge_flip)
   seen, count = set(), [0]
   def walk(f, depth):
@@ -636,25 +688,53 @@ def insert_sampler(top, vcd_func, fn):
           seen.add(id(v))
           pos = [k for k, e in enumerate(v) if any(e is g for g in edge)]
           if not pos: pos = [k for k, e in enumerate(v) if getattr(e, '__name__', '') == 'advance_sim_cycle']
-          if not pos: raise RuntimeError('cannot locate the clock edge in a tick schedule')
-          v.insert(pos[0], fn)
+          if not pos: pos = [k for k, e in enumerate(v) if e is vcd_func]     # design without any state
+          orig = v[pos[0]]
+          def at_edge(orig=orig):
+            fn(); return orig()
+          v[pos[0]] = at_edge
           count[0] += 1
       elif callable(v) and v is not fn and v is not vcd_func and hasattr(v, '__closure__'):
         walk(v, depth + 1)
-  walk(top.sim_tick, 0); walk(top.sim_reset, 0)
+  roots = [getattr(top, 'sim_tick', None), getattr(top, 'sim_reset', None)]
+  from pymtl3.dsl import CalleePort
+  roots += [x.method for x in top.get_all_object_filter(lambda x: isinstance(x, CalleePort) and x.get_host_component() is top)]
+  for r in roots:
+    if r is not None: walk(r, 0)
   if count[0] != 2:
-    raise RuntimeError(f'expected the VCD dump function in 2 schedules (sim_tick, sim_reset), found {count[0]}')
+    raise RuntimeError(f'expected the VCD dump function in 2 schedules (tick, reset), found {count[0]}')
 
-def run_design(src, name, inputs, seq, reset, vcd=True, tag='d'):
-  """returns dict(sigs=[(fullname, width)], samples=[[int]], vcd_text, textwave)"""
-  from pymtl3.passes.PassGroups import DefaultPassGroup
+FLOWS = ['default', 'default', 'default', 'simple', 'openloop', 'openloop']
+
+def run_design(src, name, inputs, seq, reset, vcd=True, tag='d', flow='default'):
+  """returns dict(sigs=[(fullname, width)], samples=[[int]], vcd_text, textwave).
+  flow: 'default'  = DefaultPassGroup(vcdwave=, textwave=)                      (dynamic schedule + PrepareSimPass)
+        'simple'   = SimpleSimPass with the waveform metadata set on the top     (static schedule + PrepareSimPass)
+        'openloop' = GenDAGPass + OpenLoopCLPass, the pipeline inside AutoTickSimPass (method-driven simulator; the
+                     design gets a top-level method port `poke`, each further call of it completes one cycle)"""
+  from pymtl3.passes.PassGroups import DefaultPassGroup, SimpleSimPass
+  from pymtl3.passes.sim.GenDAGPass import GenDAGPass
+  from pymtl3.passes.autotick.OpenLoopCLPass import OpenLoopCLPass
   from pymtl3.passes.tracing.VcdGenerationPass import VcdGenerationPass
   from pymtl3.passes.tracing.PrintTextWavePass import PrintTextWavePass
   mod, fn = load_design(src, name)
   top = getattr(mod, name)()
   top.elaborate()
   base = f'c16_{os.getpid()}_{tag}_{_mod_counter[0]}'
-  top.apply(DefaultPassGroup(vcdwave=base if vcd else None, textwave=vcd))
+  if flow == 'default':
+    top.apply(DefaultPassGroup(vcdwave=base if vcd else None, textwave=vcd))
+  else:
+    if vcd:
+      top.set_metadata(VcdGenerationPass.vcd_file_name, base)
+      top.set_metadata(PrintTextWavePass.enable, True)
+    if flow == 'simple':
+      top.apply(SimpleSimPass())
+    elif flow == 'openloop':
+      top.apply(GenDAGPass())
+      top.apply(OpenLoopCLPass(print_line_trace=False))
+    else:
+      raise ValueError(flow)
+  tick = top.poke if flow == 'openloop' else top.sim_tick
   sigs = sorted((x for x in top._dsl.all_signals if x.is_top_level_signal()), key=repr)
   mp = top._sim.signal_object_mapping
   holders = [mp[x][:3] for x in sigs]
@@ -680,7 +760,7 @@ def run_design(src, name, inputs, seq, reset, vcd=True, tag='d'):
       val = mk_bits(twidth(T))(v)
       if T[0] == 's': val = types[T[1]].from_bits(val)
       obj.__imatmul__(val)
-    top.sim_tick()
+    tick()
   # naming convention of the clean implementation: one $scope per component along repr(host) ('s' -> 'top'), and inside it
   # the signal's FULL name relative to its host component (interface prefixes and list indices kept), [ ] -> ( )
   def scope_of(x):
@@ -925,7 +1005,7 @@ def failing(spec, seqd, reset, name):
   try:
     src, inputs = render(spec, name)
     seq = [[row[(a, i)] for (a, i, _) in inputs] for row in seqd]
-    res = run_design(src, name, inputs, seq, reset, tag='s')
+    res = run_design(src, name, inputs, seq, reset, tag='s', flow=spec.get('flow', 'default'))
     an = analyse(res)
   except Exception:
     return None
@@ -982,10 +1062,10 @@ def check_batch(ctx, batch):
     b = batch[i]
     v = ctx.coq_eval('verdict', 'Base.Prelude Trace.Vcd', COQ_DEFS, [f'verdict {cases[i]}'])
     code = int(re.sub(r'[^0-9]', '', v[0]) or '-1')
-    h = hashlib.sha1((b['src'] + repr(b['seq']) + str(b['reset'])).encode()).hexdigest()[:12]
+    h = hashlib.sha1((b['src'] + repr(b['seq']) + str(b['reset']) + b['spec'].get('flow', 'default')).encode()).hexdigest()[:12]
     an = b['an']
     replay = {'design_source': b['src'], 'top': b['name'], 'inputs': [list(x) for x in b['inputs']], 'input_sequence': b['seq'],
-              'sim_reset_first': b['reset'], 'coq_verdict_bits': code,
+              'sim_reset_first': b['reset'], 'flow': b['spec'].get('flow', 'default'), 'coq_verdict_bits': code,
               'mismatches': an.get('mismatches', [])[:6], 'vcd_file_head': b['vcd_head'],
               'note': 'net order inside VcdGenerationPass follows set iteration over signal objects (address based); a re-run can '
                       'order the nets differently, the recorded file head is what was judged'}
@@ -1023,24 +1103,26 @@ def run(ctx):
   specs = [(sp, False) for sp in DIRECTED] + [(None, True)] * ndesigns
   for n, (sp, randomised) in enumerate(specs):
     big = (not quick) and rng.random() < 0.3
-    spec = sp if sp is not None else rand_spec(rng, big)
+    flow = ('default', 'simple', 'openloop')[n % 3] if sp is not None else rng.choice(FLOWS)
+    spec = dict(sp if sp is not None else rand_spec(rng, big), flow=flow)
     name = f'Top{n}'
     src, inputs = render(spec, name)
     ncyc = rng.choice([1, 2, 5, 12, 30, 30, 40]) if quick else rng.choice([0, 1, 3, 10, 30, 60, 120])
     if sp is not None: ncyc = 12
     reset = rng.random() < 0.5
     seq = rand_inputs(rng, inputs, ncyc)
-    key = hashlib.sha1((src + repr(seq) + str(reset)).encode()).hexdigest()[:12]
+    key = hashlib.sha1((src + repr(seq) + str(reset) + flow).encode()).hexdigest()[:12]
+    ctx.hist['flow:' + flow] = ctx.hist.get('flow:' + flow, 0) + 1
     try:
-      res = run_design(src, name, inputs, seq, reset, tag=str(n))
+      res = run_design(src, name, inputs, seq, reset, tag=str(n), flow=flow)
     except Exception as e:
       tb = traceback.format_exc()
       # does the design simulate without waveform dumping?  then the dumping is what broke
       try:
-        run_design(src, name, inputs, seq, reset, vcd=False, tag=str(n) + 'n')
+        run_design(src, name, inputs, seq, reset, vcd=False, tag=str(n) + 'n', flow=flow)
         ctx.violation(f'C16:dump-raises:{key}', f'simulation with vcdwave/textwave raises {e!r} but runs without',
                       {'design_source': src, 'top': name, 'inputs': [list(x) for x in inputs], 'input_sequence': seq,
-                       'sim_reset_first': reset, 'traceback': tb[-1500:]})
+                       'sim_reset_first': reset, 'flow': flow, 'traceback': tb[-1500:]})
         continue
       except Exception:
         raise RuntimeError(f'generated design does not simulate (generator bug): {e!r}\n{tb[-800:]}\n{src[-1500:]}')
@@ -1049,12 +1131,12 @@ def run(ctx):
       if sum(1 for v in ctx.violations if v[0].startswith(f'C16:{kind}:')) >= MAX_REPORTS: continue
       ctx.violation(f'C16:{kind}:{key}', f'{what}',
                     {'design_source': src, 'top': name, 'inputs': [list(x) for x in inputs], 'input_sequence': seq,
-                     'sim_reset_first': reset}, found_input=(kind == 'header'))
+                     'sim_reset_first': reset, 'flow': flow}, found_input=(kind == 'header'))
     if 'coq' not in an: continue
     if an['textwave_mismatches']:
       ctx.violation(f'C16:textwave:{key}', f'PrintTextWavePass record differs from the simulator: {an["textwave_mismatches"][0]}',
                     {'design_source': src, 'top': name, 'inputs': [list(x) for x in inputs], 'input_sequence': seq,
-                     'sim_reset_first': reset, 'mismatches': an['textwave_mismatches'][:6]})
+                     'sim_reset_first': reset, 'flow': flow, 'mismatches': an['textwave_mismatches'][:6]})
     never, revisit = trace_stats(res['samples'])
     smp = res['samples']
     for i, st_ in enumerate(res['is_struct']):
@@ -1071,7 +1153,7 @@ def run(ctx):
     feature_hist(ctx, spec, an, seq, reset)
     if n in (3, len(DIRECTED) + 1, len(DIRECTED) + 7):
       ctx.sample({'design': src[len(PRELUDE):], 'signals': len(res['sigs']), 'cycles': len(res['samples']),
-                  'nets(sizes)': an['net_sizes'], 'value_change_lines': changes, 'sim_reset_first': reset,
+                  'nets(sizes)': an['net_sizes'], 'value_change_lines': changes, 'sim_reset_first': reset, 'flow': flow,
                   'vcd_body_head': [v for _, v in an['tokens'][:14]]})
     batch.append(dict(spec=spec, name=name, src=src, inputs=inputs, seq=seq, reset=reset, an=an,
                       vcd_head=res['vcd_text'][res['vcd_text'].index('$scope'):][:3000]))
@@ -1090,7 +1172,8 @@ def replay(ctx, r):
   setup_impl_path()
   rp = r['replay']
   inputs = [tuple(x[:2]) + (tuple(x[2]),) for x in rp['inputs']]
-  res = run_design(rp['design_source'], rp['top'], inputs, rp['input_sequence'], rp['sim_reset_first'], tag='r')
+  res = run_design(rp['design_source'], rp['top'], inputs, rp['input_sequence'], rp['sim_reset_first'], tag='r',
+                   flow=rp.get('flow', 'default'))
   an = analyse(res)
   print(json.dumps({'problems': an['problems'], 'mismatches': an.get('mismatches', [])[:10],
                     'textwave_mismatches': an.get('textwave_mismatches', [])[:10]}, indent=1, default=str))
